@@ -87,10 +87,10 @@ def pl_len_tag_info(pl):
     if pl is None:
         return 0, 0, "o"
     k = pl.get("k", "tag")
-    b = pl_bytes(pl)
-    if k == "tag":
+    if k == "tag":                      # (no bytes needed: lengths up to 2^32 occur as claimed sizes)
         n = pl.get("len", 0)
         return n, (pl.get("tag", 0) if n else 0), "o"
+    b = pl_bytes(pl)
     tag = (1 << 48) + int(phash(b)[:10], 16)
     if k == "conn":
         return len(b), tag, "c %d" % pl.get("status", 0)
